@@ -13,6 +13,7 @@ mod planobs;
 mod polobs;
 mod psbtobs;
 mod sat;
+mod tapobs;
 mod types;
 mod uni;
 mod world;
@@ -41,7 +42,12 @@ fn main() {
         if line.trim().is_empty() {
             continue;
         }
-        let case: Value = serde_json::from_str(&line).expect("case json");
+        let case: Value = {
+            use serde::Deserialize;
+            let mut de = serde_json::Deserializer::from_str(&line);
+            de.disable_recursion_limit();
+            Value::deserialize(&mut de).expect("case json")
+        };
         n_in += 1;
         let evs: Vec<Value> = match cmd {
             "sat" => sat::run_case(&u, &case, &["desc", "plan"]),
@@ -52,6 +58,7 @@ fn main() {
             "plan" => planobs::run_case(&u, &case),
             "policy" => polobs::run_case(&u, &case),
             "psbt" => psbtobs::run_case(&u, &case),
+            "tap" => tapobs::run_case(&u, &case),
             _ => {
                 eprintln!("unknown command {}", cmd);
                 std::process::exit(2);
